@@ -47,6 +47,9 @@ enum SimPointKind {
 void sim_plain_point(void* pc, const void* addr, int is_write);
 void sim_plain_point_n(void* pc, const void* addr, int is_write, int size);
 
+void sim_mark_after_atomics(int k);     // remember the step of the caller's k-th atomic operation from now
+uint64_t sim_marked_step(int tid);      // that step for thread tid (0 while it has not happened)
+
 // ---- TSO store buffers (fault kind SF_STORE_BUFFER; see simrt.cpp) ----
 extern int sim_tso_active;                                                  // this run may buffer stores
 int sim_tso_store(volatile void* addr, int size, uint64_t val, int mo);     // 1: buffered, the caller must not store
